@@ -180,7 +180,8 @@ func runC03(r *core.Run) {
 				q.TDX = true
 				q.SNP = r.Bool("tdx-with-snp")
 				if r.Bool("shapes?") {
-					q.Shapes = [][]string{{"c3-standard-4"}, {"c3-standard-8", "c3-standard-88"}}[r.Intn(2, "shape-set")]
+					q.Shapes = [][]string{{"c3-standard-4"}, {"c3-standard-8", "c3-standard-88"},
+						{"c3-standard-4", "c3-standard-8", "c3-standard-22", "c3-standard-44", "c3-standard-88", "c3-standard-176"}}[r.Intn(3, "shape-set")] // the last: every shipped shape, the longest document
 					q.EarlyAccept = r.Bool("early-accept")
 				}
 			}
